@@ -40,9 +40,11 @@ def main():
             continue
         sh("git apply %s" % patch, cwd=REPO)
         try:
-            # a change outside every listed statement that only the growth specification sees is re-run there
-            via_growth = meta.get("detected_by") == ["growth"]
-            code, out = sh("./check growth" if via_growth else "./check %s quick" % prop, cwd=ROOT)
+            # the property's own check - unless the stored result says that another check is the one that sees this change
+            # (a change outside the property's statement: the growth specification, or a neighbouring property)
+            det = meta.get("detected_by") or [prop]
+            target = prop if prop in det else det[0]
+            code, out = sh("./check growth" if target == "growth" else "./check %s quick" % target, cwd=ROOT)
         finally:
             sh("git checkout -- . && git clean -fdq", cwd=REPO)
         whys = sorted(set(re.findall(r"violation: (.*)", out) + re.findall(r"^DEVIATION (.*?) vector=", out, re.M)))
